@@ -663,6 +663,7 @@ func (x *run) startIdle() bool {
 		return false
 	}
 	if w.quiesce(10*time.Second) == false {
+		w.step("not quiet: %v", w.unquiet())
 		x.inconclusive("watchdog: no quiescence after start")
 		return false
 	}
@@ -855,6 +856,7 @@ func (x *run) body() {
 		}
 		startCall = nil
 		if startCall == nil && w.quiesce(10*time.Second) == false {
+			w.step("not quiet: %v", w.unquiet())
 			x.inconclusive("watchdog: no quiescence after start")
 			return
 		}
@@ -963,7 +965,9 @@ func (x *run) body() {
 
 	// ---- the fault
 	if gate != nil {
-		w.gateHolds.Store(true)
+		if lr := w.current(locus.Label); lr != nil {
+			w.gateHolder.Store(lr)
+		}
 	}
 	if c.Moment != "idle" {
 		if w.settle(3*time.Second) == false {
@@ -1000,7 +1004,7 @@ func (x *run) body() {
 	// ---- release everything the harness holds
 	w.disarm()
 	if gate != nil {
-		w.gateHolds.Store(false)
+		w.gateHolder.Store((*rec)(nil))
 		gate.Release()
 		if gate.TimedOut() {
 			x.inconclusive("gate: released by deadline")
@@ -1060,6 +1064,7 @@ func (x *run) body() {
 		}
 	}
 	if q == false {
+		w.step("not quiet: %v", w.unquiet())
 		x.inconclusive("watchdog: no quiescence after the fault")
 		return
 	}
